@@ -163,6 +163,8 @@ def model_op(drv, U, op):
     if k == "normalize":
         return drv.call("kv.normalize", U)
     if k == "setdeg":
+        if op[1] < 0:
+            return ("err", "ValueError")
         return drv.call("kv.setdeg", U, op[1])
     if k == "ior":
         V = drv.call("kv.new", op[1], None)
@@ -313,7 +315,8 @@ def gen_op(rng, U, malformed):
         return (k, F(rng.randint(1, 9), rng.randint(1, 4)))
     if k == "setdeg":
         if malformed:
-            return (k, F(max(0, p - 1)))          # lowering the degree is refused whenever some knot cannot lose a copy
+            # lowering the degree is refused whenever some knot cannot lose enough copies (also by two or more, and below 0)
+            return (k, F(rng.choice([max(0, p - 1), max(0, p - 2), 0, -1, -2])))
         return (k, F(p + rng.randint(0, 2)))
     if k in ("ior", "iand"):
         if malformed:
